@@ -107,6 +107,14 @@ func doFault(sys *Sys, kind string, extraHdr [][2]string) faultResult {
 		sc = vh.Script{Status: 200, Framing: "chunked", Steps: []vh.Step{{Op: "write", N: 100}, {Op: "flush"}, {Op: "hang"}}}
 		rq.Chunked, rq.ChunkSize = true, 16
 		rq.Trailers = [][2]string{{"X-Checksum", "abc"}}
+	case "stall-upg":
+		// the same for a client that offers a protocol upgrade which the backend does not take up (it answers 200)
+		sc = vh.Script{Status: 200, Framing: "chunked", Steps: []vh.Step{{Op: "write", N: 100}, {Op: "flush"}, {Op: "hang"}}}
+		rq.Method, rq.BodyLen = "GET", 0
+		extraHdr = append(extraHdr, [2]string{"Connection", "Upgrade"}, [2]string{"Upgrade", "h2c"})
+	case "short-chunked":
+		// a chunked body that ends without its terminating chunk: the client must be able to tell
+		sc = vh.Script{Status: 200, Framing: "chunked", Steps: []vh.Step{{Op: "write", N: 3000}, {Op: "flush"}, {Op: "closeconn"}}}
 	case "holdtrial":
 		sc = vh.Script{Status: 200, Steps: []vh.Step{{Op: "hold", Key: "trial"}, {Op: "write", N: 10}}}
 	case "cup":
